@@ -66,6 +66,16 @@ CLAIMS = {
         text="Machine-checked for every generated instruction-emitting method (minus recorded findings): opcode has a grammar entry; result type/id exactly when the entry has one; operand slots equal the entry's operands kind by kind, quantifier by quantifier, in grammar order and fed by the parameters in signature order (a swap of two equal-kinded arguments fails); parameters of parameterised kinds only via a single trailing additional_params; the sink (section / block / block end) is where the loader files that opcode; the Builder ends a block for exactly the terminator opcodes. End-to-end equality of a built module with its assemble-then-load image is C06_partial: decided by the differential (every method once in a minimal complete history + seeded complete histories) on top of C05/C12/C13/C15.",
         note="Trusted: Lean kernel + standard axioms; translator builder.py (every token of 1128 methods, validated by calling each method in the harness and comparing with the model's prediction); hand models; ArgsConform/complete-history hypotheses as stated in the evidence; known findings: type_struct_continued_intel(_id), begin_block_no_label.",
         ref="DESIGN.md §8 C06"),
+    "C04": dict(
+        technique="Lean 4 theorem: no panic site of the parser/decoder/tracker model is reachable, for every byte string and consumer, by induction over the parse with an abstract interpretation of parse_operands over each grammar entry (proved sound, evaluated by the kernel on the regenerated tables); loader composition via the C14 trace-shape theorem; differential on a systematic malformed stream",
+        text="Machine-checked: every assert!/expect/index/panic!()/overflow of binary/parser.rs, decoder.rs, tracker.rs and the generated parse_operand is an explicit panic outcome of the model, and for the tables regenerated from the working tree, every byte string below 2^63 bytes and every consumer behaviour, Parser::parse returns Ok or an error value (theorem C04); load_bytes never panics (C04_loader); every decoder request on any buffer with any limit is panic-free (C11). That accepted modules assemble and disassemble without panic is decided by the differential (assembler/disassembler models are total functions), on every accepted module of the stream.",
+        note="Trusted: Lean kernel + standard axioms; translators for the grammar/operand tables; hand models tied by the differential (pre-fix panic corpus, truncation at every word, hostile word substitution, word-count/opcode corruption, instruction drop/dup/swap, all structural words <= 4, every opcode nested in OpSpecConstantOp, random bytes); the unsafe &[u32]->&[u8] view of parse_words is outside the model.",
+        ref="DESIGN.md §8 C04"),
+    "C20": dict(
+        technique="Lean 4 theorem about a model of dis/main.rs composed of the parser, loader and disassembler models with the Display texts of every error; the real rspirv-dis binary is built from the working tree and run on every generated file, judged against the library in-process and against the model",
+        text="Machine-checked: for every file content below 2^63 bytes the model of main terminates normally and its output is the disassembly of the loaded module plus newline, or the error's message plus newline (C20, via C04_loader). The real binary's exit status, stdout and stderr are compared with that on the C04 malformed stream; error messages are compared verbatim (all ParseState/loader/decoder Display strings, including std's Utf8Error text).",
+        note="Trusted: as C04, plus subprocess execution of the binary; unreadable/missing files are outside the property.",
+        ref="DESIGN.md §8 C20"),
     "C07": dict(
         technique="Lean 4 theorems over a two-layer model of binary/disassemble.rs (instructions -> lines of tokens -> characters) instantiated at name tables translated from the source on every run; differential on every enumerant/bit/opcode/instruction shape and on seeded modules; read-back oracle reading the implementation's text with the vocabulary only",
         text="Machine-checked for every module value: the text is the header comment followed by exactly one line per instruction of all_inst_iter in that order (the order assemble uses, C15); each line has `%id = ` iff a result id, the grammar name of the opcode, the result type iff present, one token per operand. Over the regenerated tables (kernel-checked table facts + generic lemmas): distinct known opcodes, distinct declared enumerants, distinct valid mask values (every mask bit has a printed name), distinct extended-instruction numbers print differently; signed/unsigned/float literal tokens determine the bits. The lexical layer (escaping, float Display) and grammar-directed reading of the tokens are decided by the read-back oracle, not by a theorem (C07_partial at that layer).",
